@@ -200,6 +200,39 @@ fn run_script(
                 if k == 0 || guard > 10_000 || got_all.len() > exp.len() + 16 {
                     break;
                 }
+                // other accesses to the same source between two reads of the stream: a slice of the
+                // current view (replayed by the model), a slice of the enclosing region and a read on
+                // an independent stream (oracle only) — a view must not depend on a cursor shared
+                // with other views
+                let action = if exhaustive_cuts { 9 } else { rng.below(8) };
+                if action == 0 || action == 3 {
+                    let len = exp.len();
+                    let off = rng.below(len as u64 + 1) as usize;
+                    let size = std::cmp::min(rng.below((len - off) as u64 + 1) as usize, 300);
+                    sc.ops.push(format!("slice:{}:{}", off, size));
+                    match region_now.get_slice(jbk::Offset::from(off as u64), size) {
+                        Ok(b) => {
+                            check("interleaved-slice", &b[..] == &exp[off..off + size], format!("get_slice({},{}) between two stream reads differs", off, size));
+                            sc.outs.push(hex(&b));
+                        }
+                        Err(e) => {
+                            check("interleaved-slice", false, format!("get_slice({},{}) error {:?}", off, size, e));
+                            sc.outs.push(format!("err:{}", util::err_kind(&e)));
+                        }
+                    }
+                }
+                if action == 1 || action == 3 {
+                    let off = rng.below(data.len() as u64 + 1) as usize;
+                    let size = std::cmp::min(rng.below((data.len() - off) as u64 + 1) as usize, 64);
+                    let ok = region.get_slice(jbk::Offset::from(off as u64), size).map(|b| &b[..] == &data[off..off + size]).unwrap_or(false);
+                    check("interleaved-outer-slice", ok, format!("get_slice({},{}) on the enclosing region between two stream reads differs", off, size));
+                }
+                if action == 2 {
+                    let mut other = region.stream();
+                    let mut ob = vec![0u8; std::cmp::min(data.len(), 1 + rng.below(40) as usize)];
+                    let ok = other.read_exact(&mut ob).is_ok() && ob[..] == data[..ob.len()];
+                    check("interleaved-other-stream", ok, "an independent stream read between two reads returns other bytes".into());
+                }
             }
             check(
                 &format!("{}-bytes", kind),
